@@ -510,6 +510,9 @@ def batch_scenarios(ctx):
             {"o": _inner["a"] + (_inner["b"] * 2).tagged(ImplStored()) + (x * 3).tagged(ImplStored())}),
         "inner-dictionary-and-reduction": pt.make_dict_of_named_arrays(
             {"o": _inner["a"] * pt.sum(_inner["b"]) + (y - 1).tagged(ImplStored())}),
+        "inner-dictionary-entries-tagged-after-the-fact": pt.make_dict_of_named_arrays(
+            {"o": _inner["a"].tagged(_UserTag()) + _inner["a"] + _inner["b"].with_tagged_axis(-1, _UserTag()) * 2,
+             "p": _lpcall(x)["out"].tagged(_UserTag()) + (y + 2).tagged(ImplStored())}),
         "inner-dictionary-named-entry-equals-input": pt.make_dict_of_named_arrays(
             {"o": pt.make_dict_of_named_arrays({"a": (y * 2).tagged(Named("x")), "b": x + y})["a"] + x}),
         "two-unnamed-dws": pt.make_dict_of_named_arrays(
@@ -645,6 +648,15 @@ def batch_numpy_target_names(ctx):
                               "reference", {"name": nm, "role": role, "program": prog.program})
     ctx.note_batch("numpy-target-names", cases, dis, exhaustive=False, rejected_with_diagnostic=rejected,
                    identifiers=gen_ids)
+
+
+try:
+    from pytools.tag import Tag as _PTag
+
+    class _UserTag(_PTag):
+        pass
+except Exception:   # noqa: BLE001
+    _UserTag = None
 
 
 def batch_reserved_index_names(ctx):
